@@ -3,8 +3,6 @@ package mem
 // C12 — the memory queue never hands out an element whose lifetime has elapsed.
 
 import (
-	"container/list"
-	"sync"
 	"time"
 
 	gmqtt "github.com/DrmagicE/gmqtt"
@@ -12,24 +10,6 @@ import (
 	"github.com/DrmagicE/gmqtt/pkg/packets"
 	"github.com/DrmagicE/gmqtt/zzrt"
 )
-
-type zzNotifier struct {
-	dropped  []*queue.Elem
-	dropErrs []error
-	inflight int
-	queued   int
-}
-
-func (n *zzNotifier) NotifyDropped(e *queue.Elem, err error) {
-	n.dropped = append(n.dropped, e)
-	n.dropErrs = append(n.dropErrs, err)
-}
-func (n *zzNotifier) NotifyInflightAdded(d int) { n.inflight += d }
-func (n *zzNotifier) NotifyMsgQueueAdded(d int) { n.queued += d }
-
-func zzNewQueue(max int, n *zzNotifier) *Queue {
-	return &Queue{cond: sync.NewCond(&sync.Mutex{}), l: list.New(), max: max, notifier: n, clientID: "c1"}
-}
 
 // ZZ_C12_NeverLate: one element with symbolic enqueue instant / lifetime, read at a
 // symbolic later instant: returned => not yet expired; expired => reported dropped.
